@@ -88,6 +88,19 @@ pub fn after_op(
             g.rep.fail("C07", "memory_disk_differ", &format!("user u{u}: gatekeeper memory {mem:?} vs users table {dbv:?} (slots, expiry)"));
         }
     }
+    // ---------------------------------------------------------------- C15: a refused request changes nothing
+    if matches!(op, HOp::Reg { .. } | HOp::Add { .. } | HOp::Get { .. } | HOp::Sub { .. }) && matches!(out, Outcome::MaxSlots | Outcome::Error { .. }) {
+        if !same_db(&prev, &cur) {
+            g.rep.fail("C15", "refused_request_changed_state", &format!("{} was refused ({out:?}) but the database changed", crate::towerhist::op_name(op)));
+        }
+        for u in g.sys.users_seen.clone() {
+            let mem = g.sys.mem_user(u);
+            let was = prev.users.get(&u).map(|x| (x.0, x.2));
+            if mem != was {
+                g.rep.fail("C15", "refused_request_changed_state", &format!("{} was refused ({out:?}) but the gatekeeper's record of u{u} went from {was:?} to {mem:?} (slots, expiry)", crate::towerhist::op_name(op)));
+            }
+        }
+    }
     let occupied = |db: &DbRow, u: u32| -> u64 { db.appts.iter().filter(|(k, _)| k.1 == u).map(|(_, v)| slots_of(v.0.len())).sum() };
 
     match op {
@@ -449,6 +462,10 @@ pub fn after_op(
                 let ok = g.sys.chain.iter().any(|b| b.2 == tr.3 && b.3.contains(&tr.1));
                 if !ok && (matches!(op, HOp::Conn { .. }) || !prev.trackers.contains_key(k)) {
                     g.rep.fail("C04", "confirmed_in_non_active_block", &format!("{k:?}: recorded as confirmed at {} but the active block at that height does not contain t{}", tr.3, tr.1 * 16));
+                }
+                // a tracker that starts out confirmed got block and height from the responder's 100-block index
+                if !ok && !prev.trackers.contains_key(k) {
+                    g.rep.fail("C19", "index_reported_a_block_or_height_off_the_active_chain", &format!("{k:?}: the responder's index placed t{} at height {}, where the active chain does not have it", tr.1 * 16, tr.3));
                 }
             }
         }
